@@ -592,6 +592,11 @@ def multi_cast_item(item, rec):
         return alone[(m, kw)]
     for (m1, k1), (m2, k2) in item:
         a1, a2 = run_alone(m1, k1), run_alone(m2, k2)
+        if a1[0] != "ok" or a2[0] != "ok":
+            # a script with a statement that fails alone fails as a whole: nothing to compare (a first version of this
+            # space compared anyway and raised 64 false alarms on the unchanged tree; corrected, see DESIGN 10.1)
+            rec.case(("multi-cast", m1, k1, m2, k2, "partner-fails-alone"), "not-applicable", nontrivial=False)
+            continue
         script = "R_1 <- cast(DS_1#%s, %s);\nR_2 <- cast(DS_1#%s, %s);" % (m1, k1, m2, k2)
         out = refbase.run(script, [ds])
         for name, a, (m, kw), other in (("R_1", a1, (m1, k1), (m2, k2)), ("R_2", a2, (m2, k2), (m1, k1))):
